@@ -41,17 +41,25 @@ impl Arena {
         let align = align_of::<T>();
         let size = size_of::<T>();
 
-        let padding = (align - inner.offset % align) % align;
-        let new_offset = inner.offset + padding + size;
+        // the buffers are only byte-aligned, so the padding depends on the actual address
+        let padding_at = |buf: &[MaybeUninit<u8>], offset: usize| {
+            let addr = buf.as_ptr() as usize + offset;
+            (align - addr % align) % align
+        };
+        let mut padding = padding_at(&inner.current_buf, inner.offset);
 
-        if new_offset > inner.current_buf.len() {
+        if inner.offset + padding + size > inner.current_buf.len() {
             // double previous capacity
             let new_capacity = inner.current_buf.len() * 2;
-            // and make sure capacity is enough to hold at least a single T
-            let new_capacity = new_capacity.max(size);
+            // and make sure capacity is enough to hold at least a single T, wherever it has to
+            // be placed in the new buffer to be aligned
+            let new_capacity = new_capacity.max(size + align - 1);
             let new_buf: Box<[MaybeUninit<u8>]> = Box::new_uninit_slice(new_capacity);
             let old_buf = std::mem::replace(&mut inner.current_buf, new_buf);
             inner.old_bufs.push(old_buf);
+            // start over at the beginning of the new buffer
+            inner.offset = 0;
+            padding = padding_at(&inner.current_buf, 0);
         }
 
         let start = inner.offset + padding;
